@@ -36,7 +36,7 @@ func fpSort(w int) (string, string) {
 func SMTName(n string) string {
 	ok := true
 	for _, r := range n {
-		if !(r >= 'a' && r <= 'z' || r >= 'A' && r <= 'Z' || r >= '0' && r <= '9' || r == '_' || r == '.' || r == '$' || r == '-' || r == '#' || r == '@' || r == '!') {
+		if !(r >= 'a' && r <= 'z' || r >= 'A' && r <= 'Z' || r >= '0' && r <= '9' || r == '_' || r == '.' || r == '$' || r == '-' || r == '@' || r == '!') {
 			ok = false
 		}
 	}
